@@ -3,7 +3,7 @@
 From Coq Require Import List Bool NArith.
 Import ListNotations.
 From JS Require Import Model.Base Model.Shape Model.Sem Model.Merger Model.Infer Model.Api
-  Proofs.MergerSound Proofs.MergerFacts Proofs.InferSound Proofs.SourcesSound.
+  Model.JsonRef Proofs.MergerSound Proofs.MergerFacts Proofs.InferSound Proofs.SourcesSound Proofs.InferTotal.
 
 (* the pairwise merge is an upper bound of both operands, for ALL well-formed shapes *)
 Theorem C01_merger_upper_bound : forall a b, wf a = true -> wf b = true ->
@@ -21,14 +21,21 @@ Theorem C01_infer_sound : forall d, conflict_free d = true -> forall s, infer_te
 Proof. exact infer_sound. Qed.
 Print Assumptions C01_infer_sound.
 
-Theorem C01_infer_total : forall d, nodup_keys d = true -> exists s, infer_text d = Ok s.
-Proof. exact infer_total. Qed.
+(* total on every document without CONFLICTING duplicate member names (repetitions whose values
+   are inferred alike are accepted) — the quantifier of the property; duplicate-free documents
+   are a special case *)
+Theorem C01_infer_total : forall d, dup_consistent d = true -> exists s, infer_text d = Ok s.
+Proof. exact infer_total_dup. Qed.
 Print Assumptions C01_infer_total.
 
+Theorem C01_nodup_is_consistent : forall d, nodup_keys d = true -> dup_consistent d = true.
+Proof. exact nodup_dup_consistent. Qed.
+Print Assumptions C01_nodup_is_consistent.
+
 (* sequences of sources, any length / order / repetitions *)
-Theorem C01_sources_succeed : forall ds, ds <> [] -> Forall (fun d => nodup_keys d = true) ds ->
+Theorem C01_sources_succeed : forall ds, ds <> [] -> Forall (fun d => dup_consistent d = true) ds ->
   exists s, from_sources_tree ds = Ok s.
-Proof. exact sources_succeed. Qed.
+Proof. exact sources_succeed_dup. Qed.
 Print Assumptions C01_sources_succeed.
 
 (* the carve-out is on the failing document itself: a conflicted neighbour never costs
